@@ -132,6 +132,12 @@ pub(crate) fn assume_reg_inv(r: &[Word; VM_REGISTER_COUNT]) {
 
 /// A VM with the given registers, memory and gas schedule; everything else default.
 pub(crate) fn mk_vm(registers: [Word; VM_REGISTER_COUNT], memory: MemoryInstance, gas: GasCostsValuesV7) -> Vm {
+    mk_vm_with(registers, memory, gas, MemoryStorage::new(Default::default(), ContractId::zeroed()))
+}
+
+/// The same with a caller-supplied storage back end.
+pub(crate) fn mk_vm_with<S>(registers: [Word; VM_REGISTER_COUNT], memory: MemoryInstance, gas: GasCostsValuesV7, storage: S)
+    -> Interpreter<MemoryInstance, S, Script, NotSupportedEcal, Normal> {
     Interpreter {
         registers,
         memory,
@@ -141,7 +147,7 @@ pub(crate) fn mk_vm(registers: [Word; VM_REGISTER_COUNT], memory: MemoryInstance
         initial_balances: Default::default(),
         input_contracts: Default::default(),
         input_contracts_index_to_output_index: Default::default(),
-        storage: MemoryStorage::new(Default::default(), ContractId::zeroed()),
+        storage,
         debugger: Debugger::default(),
         context: Context::default(),
         balances: Default::default(),
